@@ -1,5 +1,5 @@
 #!/usr/bin/env python3
-"""Print the markdown table of seeded changes (DESIGN.md I.7) from seeded/*/meta.json."""
+"""Print the markdown table of seeded changes (DESIGN.md I.7) from seeded/*/meta.json; `--write` replaces it in DESIGN.md."""
 import json, os, re, sys
 ROOT = os.path.dirname(os.path.dirname(os.path.abspath(__file__)))
 rows = []
@@ -17,5 +17,17 @@ for name in sorted(os.listdir(os.path.join(ROOT, "seeded"))):
         verdict = "NOT reported: " + m.get("not_detected_reason", "?")
     others = ", ".join("%s %s" % (k, "also fires" if v.get("violation") else "silent") for k, v in sorted(checks.items()) if k != pid) or "-"
     rows.append("| %s | %s… | %s | %s |" % (name, needs, verdict, others))
-print("| change | what it needs to manifest (author's note, abridged) | target | other checks run |\n|---|---|---|---|")
-print("\n".join(rows))
+table = "| change | what it needs to manifest (author's note, abridged) | target | other checks run |\n|---|---|---|---|\n" + "\n".join(rows)
+if "--write" in sys.argv:
+    # replace the table in DESIGN.md I.7 (from its header line to its last row)
+    path = os.path.join(ROOT, "DESIGN.md")
+    lines = open(path).read().split("\n")
+    start = next(i for i, l in enumerate(lines) if l.startswith("| change | what it needs to manifest"))
+    end = start
+    while end < len(lines) and lines[end].startswith("|"):
+        end += 1
+    lines[start:end] = table.split("\n")
+    open(path, "w").write("\n".join(lines))
+    print("table of %d changes written to DESIGN.md" % len(rows))
+else:
+    print(table)
